@@ -243,6 +243,13 @@ def r_feeder(e, R):
         R.check(bad is None and esc2 is None and esc3 is None, "R-FEEDER", f"{f.short}: the sentinel closes the pipe and ends the thread, and is never sent", f.short,
                 "if obj is sentinel: close(); return", "the close sentinel is pickled and sent to a worker, or the feeder thread never ends (join at shutdown hangs)",
                 e.loc(f, pn.ast))
+    # on this platform (write lock present) no send happens without the lock
+    for pn in popn:
+        okE = SC.Facts(posix, [is_sentinel(False)]).edge_ok()
+        bare = g.find_path(pn, lambda n: n in sends, avoid=lambda n: n in acq or n in heads, use_exc=False, edge_ok=okE)
+        R.check(bare is None and bool(posix), "R-PAIR", f"{f.short}: with a write lock (POSIX) every send is made under it", f.short, "wacquire(); send_bytes(obj_); wrelease()",
+                "the feeder writes to the pipe without the write lock although one exists: concurrent putters interleave their messages", e.loc(f, pn.ast),
+                g.fmt_path(bare) if bare else None)
     # an empty buffer is waited for (under the condition), a non-empty one is not
     waits = [n for n in g.nodes for c in calls_in(n) if isinstance(c.func, ast.Name) and any(isinstance(d, ast.Assign) and isinstance(d.targets[0], ast.Name)
              and d.targets[0].id == c.func.id and isinstance(d.value, ast.Attribute) and d.value.attr == "wait" for d in func_nodes(f))]
